@@ -2,6 +2,7 @@ import NeumannModel.TwoPC.Lemmas
 import NeumannModel.TwoPC.LemmasPart
 import NeumannModel.TwoPC.LemmasLate
 import NeumannModel.TwoPC.LemmasVote
+import NeumannModel.TwoPC.LemmasVoteSplit
 /-
   C03 — "Two-phase commit: every participant reaches the coordinator's one decision".
   ONLY the property theorems and their non-vacuity examples; helpers are in `Lemmas*.lean`.
@@ -383,6 +384,75 @@ theorem abort_restores_shard_without_lock_discipline_witness :
     sget (s.storeOf 0) (embK 1) = some 9 ∧ sget (s.storeOf 1) 3 = some 10 ∧
     sget ((s.step (.deliver 9)).storeOf 0) (embK 1) = none ∧
     sget ((s.step (.deliver 9)).storeOf 1) 3 = some 10 := by
+  decide
+
+/-! ### `record_vote` is two critical sections (VoteSplit.lean) -/
+
+/-- The atomic `recordVote` that every theorem above is about is exactly phase 1 followed, with nothing
+    in between, by phases 2 + 3 of the code's `record_vote` — for every coordinator state and vote. -/
+theorem record_vote_is_its_two_critical_sections (c : Coordinator) (tx sh : Nat) (v : Vote)
+    (f : Nat → Nat → Bool) :
+    c.recordVote tx sh v f =
+      match c.recordVoteP1 tx sh v with
+      | .error e => .error e
+      | .ok (.done c' r) => .ok (c', r)
+      | .ok (.check c' snap) => .ok (c'.recordVoteP3 tx snap f) :=
+  recordVote_eq_phases c tx sh v f
+
+/-- Phase 3b of the code does not look at the phase it overwrites: whatever happened to the transaction
+    between the two critical sections (as long as it is still pending), an orthogonal snapshot makes
+    it `Prepared`, i.e. committable. -/
+theorem record_vote_phase3_overwrites_any_phase (c : Coordinator) (tx : Nat) (snap t : DTx)
+    (f : Nat → Nat → Bool) (hc : crossConflict f snap.votes = false) (hf : findTx c.pending tx = some t) :
+    c.recordVoteP3 tx snap f = ({ c with pending := setPhase c.pending tx .prepared }, some .prepared) ∧
+    findTx (c.recordVoteP3 tx snap f).1.pending tx = some { t with phase := .prepared } := by
+  have h1 : c.recordVoteP3 tx snap f = ({ c with pending := setPhase c.pending tx .prepared }, some .prepared) := by
+    simp only [Coordinator.recordVoteP3, hc, hf, Bool.false_eq_true, if_false]
+  rw [h1]
+  exact ⟨rfl, findTx_setPhase .prepared hf⟩
+
+/-- The re-checking variant (the proposed repair) leaves a transaction that is no longer `Preparing`
+    exactly as it is. -/
+theorem record_vote_phase3_recheck_keeps_decided_phase (c : Coordinator) (tx : Nat) (snap t : DTx)
+    (f : Nat → Nat → Bool) (hf : findTx c.pending tx = some t) (hp : t.phase ≠ .preparing) :
+    c.recordVoteP3Recheck tx snap f = (c, none) := by
+  simp only [Coordinator.recordVoteP3Recheck, hf]
+  have : (t.phase != .preparing) = true := by simpa using hp
+  simp only [this, if_true]
+
+/-- OUTSIDE the quantifier as far as the tree goes (`cluster.rs` calls `record_vote` from one loop), but
+    reachable through the `&self` API with two threads: between phase 1 and phase 3 of the last real
+    YES vote, a stray NO vote (tagged with a non-participant shard; inside the alphabet as a message)
+    is recorded by another thread — all participants have voted, not all votes are YES: phase
+    `Aborting`, ABORT broadcast queued.  Phase 3b of the first thread then overwrites `Aborting` with
+    `Prepared`, and `commit` succeeds: the transaction has an ABORT broadcast in the queue AND a
+    commit decision.  With the re-check the same interleaving leaves it `Aborting` and `commit` fails. -/
+theorem record_vote_interleaved_phases_decide_twice_outside_quantifier_witness :
+    let c0 : Coordinator := ⟨[], [], 100, 2, 0⟩
+    let f : Nat → Nat → Bool := fun _ _ => false
+    ∃ (c1 c2 c3 : Coordinator) (snap : DTx) (c4 : Coordinator),
+      (c0.begin 0 [0, 1]).toOption = some (c1, 0) ∧
+      (c1.recordVote 0 0 (.yes 0 [1]) f).toOption.map (·.1) = some c2 ∧
+      -- thread A, phase 1 of shard 1's YES: everybody voted YES, snapshot taken
+      (match c2.recordVoteP1 0 1 (.yes 1 [2]) with | .ok (.check c snap') => some (c.pending, snap'.votes) | _ => none) =
+        some (c3.pending, snap.votes) ∧
+      -- thread B, a whole `record_vote` of a stray NO in between: Aborting + queued ABORT broadcast
+      (c3.recordVote 0 5 .no f).toOption = some (c4, some Phase.aborting) ∧
+      (c4.pending.map (·.phase), c4.pendingAborts) = ([Phase.aborting], [(0, AbortReason.votedNo, [0, 1])]) ∧
+      -- thread A, phase 3: `Prepared`; the coordinator commits a transaction whose ABORT is in the queue
+      ((c4.recordVoteP3 0 snap f).1.pending.map (·.phase), (c4.recordVoteP3 0 snap f).2) =
+        ([Phase.prepared], some Phase.prepared) ∧
+      ((c4.recordVoteP3 0 snap f).1.commit 0).toOption.isSome = true ∧
+      (c4.recordVoteP3 0 snap f).1.pendingAborts = [(0, AbortReason.votedNo, [0, 1])] ∧
+      -- the repair: phase 3 leaves `Aborting` alone and the commit is refused
+      (c4.recordVoteP3Recheck 0 snap f) = (c4, none) ∧
+      ((c4.recordVoteP3Recheck 0 snap f).1.commit 0).toOption.isSome = false := by
+  refine ⟨⟨[⟨0, [0, 1], .preparing, [], 0, 2⟩], [], 100, 2, 1⟩,
+          ⟨[⟨0, [0, 1], .preparing, [(0, .yes 0 [1])], 0, 2⟩], [], 100, 2, 1⟩,
+          ⟨[⟨0, [0, 1], .preparing, [(0, .yes 0 [1]), (1, .yes 1 [2])], 0, 2⟩], [], 100, 2, 1⟩,
+          ⟨0, [0, 1], .preparing, [(0, .yes 0 [1]), (1, .yes 1 [2])], 0, 2⟩,
+          ⟨[⟨0, [0, 1], .aborting, [(0, .yes 0 [1]), (1, .yes 1 [2]), (5, .no)], 0, 2⟩], [(0, .votedNo, [0, 1])], 100, 2, 1⟩,
+          ?_⟩
   decide
 
 /-! ### the two counter-traces over the EXTENDED alphabet (outside C03's quantifier) -/
